@@ -101,6 +101,12 @@ func nasties(thorough bool) []nasty {
 		{name: "numbers", src: `{ b(a: 99999999999999999999, id: 1e400) enum(a: -0) c(a: 0.0000000000000000000000001e-999) { id } }`},
 		{name: "strings", src: "{ b(id: \"\\u0000\\ud800\\udfff\\\"\") a(id: \"\"\"\n  \\\"\"\"  \"\"\") { id } }"},
 		{name: "unicode-bom", src: "\ufeff{ a #é\n { id } }"},
+		// code points some editions (and regexp classes) count as line ends: the line counting of error locations and the
+		// source highlighting of syntax errors must agree on them (seed C09-14: index out of range inside parser.Parse)
+		{name: "unicode-line-separators", src: "{ a #\u2028"},
+		{name: "unicode-line-separators-2", src: "{ a #\u2029\u2028\u0085\v\f }}"},
+		{name: "unicode-line-separators-3", src: "\"\u2028\u2029"},
+		{name: "unicode-line-separators-4", src: "{ a(s: \"\u2028\") #\u2029\r\n\u2028 ] "},
 		{name: "empty", src: ``},
 		{name: "blank", src: " \t\r\n,,, # only a comment"},
 	}
@@ -178,7 +184,7 @@ func nilParamJobs() []job {
 
 var tokenPool = []string{"{", "}", "(", ")", "[", "]", ":", "!", "$", "@", "...", "=", "|", "&", "\"x\"", "\"\"\"b\n\"\"\"", "\"", "\"\"\"", "1", "1.5", "-0", "1e400", "true", "null",
 	"on", "fragment", "query", "mutation", "subscription", "type", "schema", "extend", "implements", "interface", "union", "enum", "input", "scalar", "directive",
-	"a", "b", "c", "T", "Query", "Node", "U", "Nope", "...F", "...on", "... on T", "@skip(if: true)", "@include(if: $a)", "@skip(if: $a)", "$a", "$a: Int", "$b: [T!]! = [1]", "#c\n", "\n", ",", "\ufeff", "\x00", "\xff", "é", "\\u12", "{a{a{a", "}}}",
+	"a", "b", "c", "T", "Query", "Node", "U", "Nope", "...F", "...on", "... on T", "@skip(if: true)", "@include(if: $a)", "@skip(if: $a)", "$a", "$a: Int", "$b: [T!]! = [1]", "#c\n", "\n", ",", "\ufeff", "\x00", "\xff", "é", "\u2028", "\u2029", "#\u2028", "\u0085", "\v", "\f", "\r", "\r\n", "\\u12", "{a{a{a", "}}}",
 	"fragment F on T { a { ...F } }", "fragment G on Query { ...G ...F }", "__typename", "__schema { types { name } }", "a: a", "x: a { id }", "x: b"}
 
 // mutate applies n random text mutations; splices draw on the other seeds when given.
